@@ -1,7 +1,7 @@
 #!/usr/bin/env python3
 """Regenerates MANIFEST.json from the table below (run after adding a check)."""
 import json, os, subprocess
-HOOK_COMMITS = ["b90bd7e", "6ee1992", "c78af28", "9917abb"]
+HOOK_COMMITS = ["b90bd7e", "6ee1992", "c78af28", "9917abb", "7a991b8"]
 CHECKS = {
  "C01": dict(
    level=("proof", "Coq theorems for every register size n, target, ordered control/target pair, matrix and state: the blocked pair loop of "
@@ -98,6 +98,17 @@ CHECKS = {
    note="Trusted: Coq kernel + functional_extensionality_dep; extraction; glue. Static initialisers run in class order in the model; the generator keeps "
         "them order-insensitive (literals).",
    technique="Coq proof (permutation invariance of name lookup) + metamorphic permutation testing on the implementation + differential testing"),
+ "C11": dict(
+   level=("proof", "Coq theorems (axiom-free) about a mark-and-sweep collector over the reference interpreter's heap with the interpreter's roots (running "
+          "frame, suspended callers, pending operands, statics, in-flight return value): whenever marking completes every object reachable from a root is "
+          "marked; a collection at any state leaves every reachable object exactly as it was, touches nothing but the heap, and whatever it clears was "
+          "unreachable. The interpreter itself has no tracing collector, so its output is schedule independent by construction. The implementation is tied "
+          "to it through hook H4: each generated program (graphs held by variables, fields, statics, pending arguments, temporaries, return values; bursts "
+          "of allocation at those points; garbage cycles) is run with no collection, a collection at every statement boundary, masked subsets and the "
+          "default triggers; all outputs must coincide and equal the interpreter's. Race freedom and shutdown of the timer thread are observed with "
+          "ThreadSanitizer on the unhooked build (sampled, not enumerated: partial).", "DESIGN.md §6 C11"),
+   note="Trusted: Coq kernel; extraction; glue; hook H4; TSan runtime. Not every subset of boundaries is enumerated (masks are periodic); thread interleavings are sampled.",
+   technique="Coq proof (work-list marking invariant) + schedule-forcing differential testing + ThreadSanitizer runs"),
  "C12": dict(
    level=("proof", "Coq theorems (axiom-free) on the reference interpreter: int arithmetic of any two in-range operands yields an in-range int; long "
           "arithmetic yields an in-range long or is flagged as outside the documentation; x % -1 = 0 for every x including the most negative long; "
